@@ -209,6 +209,15 @@ func RunCase(line string) (impl, fail, sig string, err error) {
 		impl = runImpl(p)
 		_, fail, sig, _ = verdict(p, impl)
 		return impl, fail, sig, nil
+	case "cidpriv":
+		if len(items) != 6 {
+			return "", "", "", errors.New("cidpriv case: want 6 items")
+		}
+		var a [5]string
+		for i := range a {
+			a[i], _ = vlib.AsAtom(items[1+i])
+		}
+		return cidprivCase(a[0], a[1], a[2], a[3], a[4])
 	case "privw":
 		if len(items) != 4 {
 			return "", "", "", errors.New("privw case: want 4 items")
@@ -401,6 +410,7 @@ func Gen(run *vlib.Run, seed uint64, tier string) {
 	run.Rule = "Type 2 charstring with subroutine tables and widths; non-trivial = the specification rejects it, or it has at least 3 path/mask commands, or stems, or a subroutine call; distinct by (code, tables, widths)"
 	r := vlib.NewRand(seed)
 	genPrivw(run)
+	genCidPriv(run)
 	plain := &gcfg{arith: 0, frac: 15}
 	arith := &gcfg{arith: 18, frac: 15}
 	heavy := &gcfg{arith: 60, frac: 30}
